@@ -38,7 +38,7 @@ BASES = {
     'pint': ('t:pint', ['123', '456', '900']),
     'pdec': ('t:pdec', ['1.50', '12.25', '0.75']),
 }
-GLOBAL_TYPES = '''<xs:simpleType name="ilist"><xs:list itemType="xs:int"/></xs:simpleType>
+GLOBAL_TYPES = r'''<xs:simpleType name="ilist"><xs:list itemType="xs:int"/></xs:simpleType>
 <xs:simpleType name="dlist"><xs:list itemType="xs:decimal"/></xs:simpleType>
 <xs:simpleType name="u"><xs:union memberTypes="xs:int xs:date xs:boolean"/></xs:simpleType>
 <xs:simpleType name="iu"><xs:union memberTypes="xs:int xs:date"/></xs:simpleType>
